@@ -565,7 +565,7 @@ let end_trace () =
   (* the hypothesis of the membership-change theorems, evaluated on the voter lists this trace counted majorities over *)
   let nc = int_ (n_configs !st) in
   if nc <= 1 then incr n_fixed;
-  if overlap_state !st then incr n_overlap_ok else bump skipped "overlap_hypothesis_not_met(theorems_do_not_apply_to_this_trace)"
+  if overlap_state !st then incr n_overlap_ok else bump skipped "overlap_hypothesis_not_met(leader_completeness_theorem_not_applicable;checked_by_monitor)"
 
 let hist_str h =
   let l = Hashtbl.fold (fun k v acc -> (k, v) :: acc) h [] in
